@@ -99,6 +99,19 @@ class VariableBoundVisitor(ModelVisitor):
         if count >= limit:
             print("Note: variable bounds model failed to converge in " + str(limit) + " iterations")
             
+        # Bounds are propagated on unbounded integers, while the solver evaluates
+        # expressions at their bit width. An empty or inverted domain is an artifact
+        # of that difference (the hard constraints decide satisfiability): fall back
+        # to the range of the variable's type, so that the variable is still randomized
+        for f,b in self.bound_m.items():
+            if isinstance(b, VariableBoundScalarModel) and (
+                len(b.domain.range_l) == 0 or any(r[1] < r[0] for r in b.domain.range_l)):
+                b.domain.range_l.clear()
+                if b.var.is_signed:
+                    b.domain.add_range(-(1 << b.var.width-1), (1 << b.var.width-1)-1)
+                else:
+                    b.domain.add_range(0, (1 << b.var.width)-1)
+        
         # Update data calcuated from domain ranges
         for f,b in self.bound_m.items():
             b.update()
